@@ -72,7 +72,7 @@ def items(X, axis):
 
 def sym_isqrt(C, rcond=1e-12):
     w, U = np.linalg.eigh(C)
-    keep = w > rcond
+    keep = w > rcond * max(1.0, float(w.max(initial=0.0)))  # the code's cut (relative to the largest eigenvalue above 1)
     return (U[:, keep] / np.sqrt(w[keep])) @ U[:, keep].T, w
 
 
@@ -96,21 +96,16 @@ def fps_distance_matrix(spec, X, y):
     return d[:, None] + d[None, :] - 2 * M
 
 
-def spectrum_clear_of_cut(w, cut=1e-12):
-    """The code drops eigenvalues of X^T X below an *absolute* cut.  The documented
-    formula only determines the result when every eigenvalue is either clearly kept
-    or clearly rounding noise; otherwise the case is outside 'up to rounding'."""
+def spectrum_clear_of_cut(w, cut=1e-12, absolute_cut=True):
+    """The code drops eigenvalues of X^T X below cut x max(1, largest eigenvalue) (pcovr_covariance since fix 71a1f76,
+    PCovR since 375caf9).  The documented formula only determines the result when every eigenvalue is either clearly
+    kept or clearly rounding noise; otherwise the case is outside 'up to rounding'."""
     w = np.asarray(w, dtype=float)
     wmax = max(float(np.max(np.abs(w))), 1e-300)
+    cut = cut * max(1.0, wmax)
     kept = w > max(100 * cut, 1e-7 * wmax)
     noise = np.abs(w) < min(cut / 5, 200 * np.finfo(float).eps * wmax * len(w))
-    if not np.all(kept | noise):
-        return False
-    # a rank-deficient matrix: the size of its rounding-noise eigenvalues depends on how the product was formed (dtype,
-    # memory layout, summation order), so they are only "clearly below the cut" if their a-priori level is
-    if np.any(~kept) and 8 * np.finfo(float).eps * wmax >= cut / 5:
-        return False
-    return True
+    return bool(np.all(kept | noise))
 
 
 def pcov_spectrum_guard(spec, X):
@@ -244,7 +239,7 @@ def fit(est, X, y, spec, warm=False):
     if spec.get("xfloat32"):  # single-precision input (the numbers are exactly representable: drawn that way)
         X = np.asarray(X).astype(np.float32)
     if spec.get("xint") and np.all(np.asarray(X) == np.round(X)):  # whole-number data handed over with an integer dtype
-        X = np.asarray(X).astype(spec["xint"])
+        X = forms.as_integer(X, spec["xint"])
     if spec.get("yint") and y is not None and np.all(np.asarray(y) == np.round(y)):
         y = np.asarray(y).astype(spec["yint"])
     X = forms.present(X, spec.get("xform", "C"))
